@@ -547,6 +547,12 @@ func runC09(p *P, r *R) {
 		r.count("R09.9", "buffer swaps in ReleaseReadAndReuse", n, 1)
 	}
 
+	// ---- R09.10 recycling a chain returns every slice (shared with C02); R09.7 the stream pool closes what it discards
+	// (shared with C15); R09.11 the release role returns every pinned slice (shared with C08)
+	borrow(p, r, "C02", runC02, map[string]string{"R02.3": "R09.10", "R02.5": "R09.10", "R02.6": "R09.10"}, nil)
+	borrow(p, r, "C15", runC15, map[string]string{"R15.1": "R09.7", "R15.2": "R09.7"}, nil)
+	borrow(p, r, "C08", runC08, map[string]string{"R08.4": "R09.11"}, nil)
+
 	// ---- R09.8 census of main-list popFront callers
 	allowed := map[string]string{
 		"(*linkedBuffer).readNextSlice":                 "reader funnel (pinned decision, C08 R08.2)",
